@@ -304,15 +304,21 @@ impl<K: View, V> HashMap<K, V> {
 }
 
 // ---- sos_backend::Folder ----------------------------------------------------------------------
-/// name, flags and description of a folder (unit fold `FolderView` without the secrets) — abstract
-#[verifier::external_body]
-pub ghost struct FolderHead { _p: () }
+/// name, flags and description of a folder (unit fold `FolderView` without the secrets; the description is the folder's
+/// meta blob opened with the folder key: clientsync `open_meta`, vaultmem `dec_VaultMeta`)
+pub ghost struct FolderHead { pub name: Seq<char>, pub flags: u64, pub desc: Seq<char> }
 /// `sos_core::commit::CommitState` (commit hash + proof) — opaque
 #[verifier::external_body]
 pub struct CommitState { _p: () }
-/// `sos_core::events::WriteEvent` — opaque at this level (unit clientsync: the event is exactly the change made)
+/// `sos_core::events::WriteEvent` (crates/core/src/events/write.rs): the folder-level variants as declared, the secret
+/// events collapsed (unit clientsync: the event is exactly the change made)
+pub enum WriteEvent { CreateVault(Vec<u8>), SetVaultName(String), SetVaultFlags(VaultFlags), SetVaultMeta(AeadPack), Secret(WriteSecretEvent) }
+/// `sos_core::crypto::AeadPack` — opaque (ciphertext)
 #[verifier::external_body]
-pub struct WriteEvent { _p: () }
+pub struct AeadPack { _p: () }
+/// CreateSecret / UpdateSecret / DeleteSecret with their payload — opaque here
+#[verifier::external_body]
+pub struct WriteSecretEvent { _p: () }
 /// `sos_core::VaultCommit` — opaque (ciphertext row)
 #[verifier::external_body]
 pub struct VaultCommit { _p: () }
@@ -519,6 +525,12 @@ pub struct Identity { _p: () }
 /// ghost state of a client storage: the in-memory folders (`folders()`), the folder summaries
 /// (`summaries(Internal)`), the currently open folder (`current_folder()`), whether a user is signed in
 pub ghost struct StoreV {
+    /// the vault files of folders that are NOT held in memory, by folder id (a folder in memory: `Folder::stored()`)
+    pub vfiles: Map<Seq<u8>, VaultG>,
+    /// the account event log
+    pub alog: Seq<AEv>,
+    /// the folder passwords the signed-in user has saved
+    pub user_keys: Map<Seq<u8>, AccessKey>,
     pub folders: Map<Seq<u8>, Folder>,
     pub sums: Seq<Summary>,
     pub cur: Option<Summary>,
